@@ -427,3 +427,104 @@ Print Assumptions gen_reset_locks_targets_ok.
 Theorem gen_reset_order_ok : reset_order_source_ok = true /\ delay_firstb reset_order = true.
 Proof. exact (reset_order_verdict reset_order_source_ok reset_order (eq_refl true)). Qed.
 Print Assumptions gen_reset_order_ok.
+
+From V Require Import GenDestroyOrder ResetRaceDestroy ResetRaceDestroyLemmas.
+
+(* ---- destruction against the timer thread (model ResetRaceDestroy.v) --------------------------------
+   Quantifiers: [v] -- what ~InterpreterImpl() does about the delayed queue (lock _delayMutex + clear the
+   targets + cancel; give up _al's handle; give up the member's handle in the body), regenerated from the
+   source as dv_gen; [members] -- any declaration order of the members the timer callback uses (regenerated:
+   destroy_members); [pend targets cb] -- ANY NUMBER of pending delayed sends, the timer thread idle or anywhere
+   inside a callback when the destructor starts; [alref] -- whether getActionLanguage() had been called (a
+   second handle to the queue inside _al); [sched] -- every interleaving of the destroying thread and the timer
+   thread, any length.  d_fault = a step of a timer callback used a member of the interpreter that was already
+   destroyed (or the object after its memory was released).
+   Not covered: a handle to the delayed queue held outside the interpreter (a user's copy of the ActionLanguage,
+   a queue shared between interpreters): nobody joins the timer thread then, whatever the destructor does;
+   subclasses of InterpreterImpl that override eventReady; invoker threads (C11). *)
+
+(* U.  the repaired shape -- the body gives up the member's handle and it is the last one (dv_joins_in_body, and
+   _al's handle given up before or never taken) --, ANY order of the members, every schedule: no callback step
+   uses a destroyed member, and no callback works inside the object after the destructor's body has finished
+   (that second part is what the replay on the implementation observes: point interp.destroy.done). *)
+Theorem destroy_no_use_after_free :
+  forall v members pend targets cb alref sched,
+    destroy_safeb v alref = true ->
+    let s := d_run (d_at_call (destroy_prog v members) pend targets cb alref) sched in
+    d_fault s = false /\ d_after_done s = false.
+Proof. exact destroy_no_use_after_free_lemma. Qed.
+Print Assumptions destroy_no_use_after_free.
+
+(* U.  the other safe shape (lock + clear + cancel, _al's handle given up or never taken, NO join in the body):
+   safe as far as memory goes provided the member _delayQueue is destroyed before _delayMutex and
+   _delayedEventTargets (queue_dies_firstb of the kill order).  A callback may then still run inside the object
+   while its members are being destroyed (d_after_done is not claimed). *)
+Theorem destroy_safe_by_member_order :
+  forall v members pend targets cb alref sched,
+    dv_joins_in_body v = false ->
+    destroy_safe_by_orderb v alref members = true ->
+    d_fault (d_run (d_at_call (destroy_prog v members) pend targets cb alref) sched) = false.
+Proof. exact destroy_safe_by_member_order_lemma. Qed.
+Print Assumptions destroy_safe_by_member_order.
+
+(* refuted for the code as found (dv_found, the declaration order of the pinned header): a delayed send whose
+   callback is past its critical section when the destructor starts.  cancelAllDelayed finds nothing, the body
+   finishes, _ioProcs is destroyed, then the member's handle joins -- it waits for the callback, which meanwhile
+   runs eventReady and dispatches through the destroyed _ioProcs.  (schedule: 4 steps of the destructor, then the
+   callback; replayed on the implementation: `destroyrace default ext unlocked 0 15 60`, valgrind: invalid reads) *)
+Theorem destroy_no_use_after_free_refuted :
+  exists sched,
+    let s := d_run (d_at_call (destroy_prog dv_found members_found) [] [(7%N, KDeliver)] (CbTaken 7) false) sched in
+    d_fault s = true /\ d_after_done s = true /\ d_ioprocs s = false /\ d_delaym s = true.
+Proof. exact destroy_no_use_after_free_refuted_lemma. Qed.
+Print Assumptions destroy_no_use_after_free_refuted.
+
+(* refuted: the condition on _al's handle cannot be dropped.  Lock, clear, cancel and the member's handle given up
+   in the body, but _al still holds one (getActionLanguage() had been called): nobody joins until _al dies --
+   after _delayMutex; the callback locks a destroyed mutex. *)
+Theorem destroy_al_handle_refuted :
+  exists sched,
+    let v := {| dv_locks_targets := true; dv_drops_al := false; dv_joins_in_body := true |} in
+    let s := d_run (d_at_call (destroy_prog v members_found) [] [(7%N, KDeliver)] (CbTaken 7) true) sched in
+    d_fault s = true /\ d_delaym s = false.
+Proof. exact destroy_al_handle_refuted_lemma. Qed.
+Print Assumptions destroy_al_handle_refuted.
+
+(* refuted: the member order in destroy_safe_by_member_order cannot be dropped (a header in which _delayQueue is
+   declared before _delayMutex). *)
+Theorem destroy_member_order_refuted :
+  exists sched,
+    let v := {| dv_locks_targets := true; dv_drops_al := true; dv_joins_in_body := false |} in
+    let members := [MAl; MDelayQueue; MTargets; MDelayMutex; MInternalQueue; MExternalQueue; MIoProcs] in
+    let s := d_run (d_at_call (destroy_prog v members) [] [(7%N, KDeliver)] (CbTaken 7) false) sched in
+    queue_dies_firstb (map kill_of (rev members)) = false /\ d_fault s = true.
+Proof. exact destroy_member_order_refuted_lemma. Qed.
+Print Assumptions destroy_member_order_refuted.
+
+(* the hypotheses are satisfiable by a non-trivial run: two pending timers, one under way while the repaired
+   destructor runs (the join in the body waits for it), everything destroyed afterwards, no fault *)
+Theorem destroy_nonvacuous_example :
+  let s0 := d_at_call (destroy_prog dv_fixed members_found) [7%N; 8%N] [(7%N, KError); (8%N, KDeliver)] CbIdle true in
+  destroy_safeb dv_fixed true = true
+  /\ (let s := d_run s0 [DaFire 7; DaTimer; DaDestroy; DaDestroy; DaDestroy; DaDestroy; DaDestroy] in
+      d_cb s = CbTaken 7 /\ d_joined s = false /\ d_body_done s = false)
+  /\ (let s := d_run s0 ([DaFire 7; DaTimer; DaDestroy; DaDestroy; DaDestroy; DaDestroy; DaTimer] ++ repeat DaDestroy 12) in
+      d_todo s = [] /\ d_joined s = true /\ d_obj s = false /\ d_fault s = false /\ d_after_done s = false).
+Proof. exact destroy_nonvacuous. Qed.
+Print Assumptions destroy_nonvacuous_example.
+
+(* VERDICT about the working tree: the destructor could be read by the translator, and what it does satisfies
+   destroy_safeb even when getActionLanguage() had been called (alref = true): destroy_no_use_after_free applies
+   to dv_gen with any member order.  Computed here (eq_refl): breaks when the join in the body or the release of
+   _al's handle is removed or moved. *)
+Theorem gen_destroy_ok : destroy_source_ok = true /\ dv_joins_in_body dv_gen = true /\ dv_drops_al dv_gen = true.
+Proof. exact (destroy_verdict destroy_source_ok (dv_joins_in_body dv_gen) (dv_drops_al dv_gen) (eq_refl true)). Qed.
+Print Assumptions gen_destroy_ok.
+
+(* VERDICT, second line of defence: also the declaration order of the members in InterpreterImpl.h and the lock +
+   clear in the body are as destroy_safe_by_member_order needs them (so the destruction stays memory-safe if the
+   join were moved out of the body again). *)
+Theorem gen_destroy_member_order_ok :
+  dv_locks_targets dv_gen = true /\ queue_dies_firstb (map kill_of (rev destroy_members)) = true.
+Proof. exact (conj (eq_refl true) (eq_refl true)). Qed.
+Print Assumptions gen_destroy_member_order_ok.
